@@ -26,6 +26,15 @@ std::string exactOf(const G &g) {
     std::snprintf(b, sizeof b, "%La", o.totalW);
     return obsText(o, true, GT<G>::directed) + b;
 }
+// order-free observations: what "an equal graph" must share (neighbour-list order is not part of a graph's value)
+template <class G>
+std::string valueOf2(const G &g) {
+    Obs o;
+    observe(g, o);
+    char b[64];
+    std::snprintf(b, sizeof b, "%La", o.totalW);
+    return obsText(o, false, GT<G>::directed) + b;
+}
 
 // value used when an element of an edge container is added
 template <class G>
@@ -63,7 +72,7 @@ std::string ctorCheck(const char *cname, const Cont &cont, size_t expectSize, co
             observer = std::string("ctor-equals-incremental(") + cname + ")";
             return std::string("graph constructed from a ") + cname + " differs from the one obtained by adding the same elements one at a time";
         }
-        if (exactOf(made) != exactOf(expected)) {
+        if (valueOf2(made) != valueOf2(expected)) {
             observer = std::string("ctor-observers(") + cname + ")";
             return std::string("graph constructed from a ") + cname + " shows other observations than the incrementally built one";
         }
@@ -81,6 +90,8 @@ std::string ctorChecks(const GSpec &s, std::string &observer, StepFacts &facts) 
     // the sequence handed to the constructors (core indices, no padding)
     std::vector<GEdge> seq;
     for (auto e : s.edges) {
+        if (e.remove)
+            continue; // a container of edges has no removals
         e.i -= (unsigned)s.padFront;
         e.j -= (unsigned)s.padFront;
         seq.push_back(e);
@@ -166,7 +177,7 @@ std::string ctorChecks(const GSpec &s, std::string &observer, StepFacts &facts) 
 template <class G>
 std::string copyChecks(const G &g, const Model &m, std::string &observer, StepFacts &facts) {
     typedef GT<G> T;
-    std::string ex0 = exactOf(g);
+    std::string ex0 = exactOf(g), val0 = valueOf2(g);
     auto mutate = [&](G &x) {
         // one visible change: add the first absent pair, else remove the first present one, else grow
         for (unsigned i = 0; i < m.n; ++i)
@@ -187,7 +198,7 @@ std::string copyChecks(const G &g, const Model &m, std::string &observer, StepFa
     };
     {
         G c(g);
-        if (!(c == g) || !(g == c) || c != g || exactOf(c) != ex0) {
+        if (!(c == g) || !(g == c) || c != g || valueOf2(c) != val0) {
             observer = "copy-construct";
             return "a copy-constructed graph is not equal to / does not show the same observations as its source";
         }
@@ -205,15 +216,16 @@ std::string copyChecks(const G &g, const Model &m, std::string &observer, StepFa
         G c(1);
         addOne(c, 0, 0, valueOf<G>(2));
         c = g;
-        if (!(c == g) || !(g == c) || exactOf(c) != ex0) {
+        if (!(c == g) || !(g == c) || valueOf2(c) != val0) {
             observer = "copy-assign";
             return "a copy-assigned graph is not equal to / does not show the same observations as its source";
         }
         G src(g);
         G d(0);
         d = src;
+        std::string dBefore = exactOf(d);
         mutate(src);
-        if (exactOf(d) != ex0) {
+        if (exactOf(d) != dBefore) {
             observer = "copy-independence";
             return "mutating the source changed its copy-assigned copy";
         }
